@@ -94,7 +94,16 @@ fn check(c: &SummaryCase, obs: &mut Obs) -> Verdict {
         let f_all = normalize_all(&fr.deltas);
         let empty = crate::observe::SecResult { deltas: vec![], err: None };
         let rr = rerun.get(sec).unwrap_or(&empty);
-        if let Some(e) = &rr.err { return known(sec, format!("{sec}: the summary plus the later rows is rejected: {e}\n{}", ctx())); }
+        if let Some(e) = &rr.err {
+            // K4 (root cause, read off the input): the summary re-writes the split rows of the summarised period in another form (a split
+            // for everyone as one row per affiliate; a Default-only split without an affiliate cell when no other affiliate is left); a
+            // split of the other form dated within a day of it and kept after the cut then trips the tool's duplicate-split guard (F-04d)
+            // in the re-run, although the full history has no mixed pair
+            let rows: Vec<crate::gen::HRow> = l.sec_rows(sec);
+            let k4 = e.contains("Found non-global split") && !super::c04::split_proximity_present(&rows) && rows.iter().any(|g| g.act == Act::Split && g.sd <= c.cut && rows.iter().any(|h| h.act == Act::Split && h.sd > c.cut && (h.td - g.td).whole_days().abs() <= 1));
+            if k4 { return known_or_fail("F-10-K4", format!("{sec}: the summary plus the later rows is rejected: {e}\n{}", ctx())); }
+            return known(sec, format!("{sec}: the summary plus the later rows is rejected: {e}\n{}", ctx()));
+        }
         let r_all = normalize_all(&rr.deltas);
         // rows settling after the cut; split rows of affiliates that hold nothing are ignored on both sides
         let keep = |r: &&NRow| r.sd > c.cut && !(r.act == Act::Split && r.share_bal.is_zero());
@@ -145,6 +154,6 @@ fn check(c: &SummaryCase, obs: &mut Obs) -> Verdict {
 pub fn def() -> PropDef {
     let mut d = PropDef::new("C10", "error-free generated histories (ledger generator and window scenarios: 1-3 securities, several affiliates incl. registered, splits, loss sales) x a cut date at every interesting position (on / one day before / after any settlement date, +-29/30/31 days around it, before the first and after the last row) x {simple, annual}; 'today' = 100 days after the last row. Round trip through text: summary rows -> write_txs_to_csv -> [summary.csv, original rows settling after the cut] -> second run. The second run must succeed and show, for every later row, the same gain, superficial loss, share balance, ACB and automatic adjustments (1e-9), the same final holdings and ACB per affiliate, and (annual) the same net gain per year and affiliate for the summarised period. Non-trivial = a loss sale or an acquisition within 30 days of the cut. Distinct = distinct case content.");
     d.assumptions = vec!["split rows of affiliates that hold nothing are ignored on both sides", "known findings are keyed on root-cause predicates over the full run's ledger and the cut (K1/K2/K3), not on symptoms"];
-    d.subs.push(Box::new(Sub::<SummaryCase> { name: "roundtrip", cases_quick: 15_000, cases_thorough: 600_000, strategy: Box::new(strategy), to_json: SummaryCase::to_json, from_json: SummaryCase::from_json, check }));
+    d.subs.push(Box::new(Sub::<SummaryCase> { name: "roundtrip", cases_quick: 75_000, cases_thorough: 600_000, strategy: Box::new(strategy), to_json: SummaryCase::to_json, from_json: SummaryCase::from_json, check }));
     d
 }
